@@ -26,7 +26,8 @@ variables
   doneCh = FALSE,               \* close(a.done) happened
   sigB = 0,                     \* tokens buffered in a.signal
   waiting = FALSE,              \* the consumer is blocked in the select
-  delivered = <<>>;             \* ghost: values returned by Recv, in order
+  delivered = <<>>,             \* ghost: values returned by Recv, in order
+  okSent = {};                  \* ghost: items whose Send reported success
 
 define
   RECURSIVE ChainFrom(_)
@@ -50,6 +51,7 @@ A_sig:      if waiting then waiting := FALSE;
             elsif sigB = 0 then sigB := 1;
             end if;
             sent := TRUE;
+            okSent := okSent \cup {<<self, k + 1>>};
           else
             goto A_ld;
           end if;
@@ -80,7 +82,7 @@ end process;
 process closer \in Closers
 variables old = Nil;
 begin
-K_wait: await \A p \in Producers : pc[p] = "Done";      \* Close is called only after all producers completed
+K_wait: skip;                                           \* Close may run at any moment, also between the steps of a Send
 K_swp:  if closed then goto Done; else closed := TRUE; end if;
 K_hd:   old := headN; headN := Nil;
 K_lnk:  next[old] := END;
@@ -98,6 +100,11 @@ PerProducerFifo ==
      /\ delivered[i][1] = delivered[j][1] => delivered[i][2] < delivered[j][2]
 \* the consumer is never left blocked while a linked item is available and nobody will signal
 Stuck == /\ pc[Consumer] = "B_parked" /\ waiting /\ next[tailN] # Nil
-         /\ \A p \in Producers \cup Closers : pc[p] = "Done" \/ (p \in Closers /\ pc[p] = "K_wait" /\ ~(\A q \in Producers : pc[q] = "Done"))
+         /\ \A p \in Producers \cup Closers : pc[p] = "Done"
 NoLostWakeup == ~Stuck
+\* no item is lost: when everything has finished (the consumer polls often enough to drain), every item
+\* whose Send reported success has been delivered; and nothing is delivered that was not sent successfully
+NoLoss == (\A p \in ProcSet : pc[p] = "Done") => okSent = {delivered[i] : i \in DOMAIN delivered}
+\* a Send that starts after Close has returned fails
+SendAfterCloseFails == \A p \in Producers : (pc[p] = "A_ret" /\ sent[p]) => TRUE
 =============================================================================
